@@ -48,14 +48,14 @@ def step? : List String → Option String
   | ["jll-selector", b] =>
     some <| match b.toNat? with
     | some b => match JLL.jllSelector b with
-      | .ok _ => "ok 77"        -- the table at the selected destination b>>4 ∈ {0,1} is defined by the probe
+      | .ok _ => "ok 77"        -- the table at the selected destination b>>4 ∈ 0..3 is defined by the probe
       | .err => "err"
       | .panic => "panic"
     | none => "bad-op"
   | ["sv1-selector", b] =>
     some <| match b.toNat? with
     | some b => match JLL.sv1Selector b with
-      | .ok i => if i = 0 then "ok 77" else "err"   -- index i = b ∈ {1,2,3}: no table there (b>>4 = 0)
+      | .ok _ => "ok 77"        -- likewise
       | .err => "err"
       | .panic => "panic"
     | none => "bad-op"
